@@ -191,7 +191,7 @@ func (x *Exec) modHeapNames(item string, callee *ssa.Function, c *ssa.CallCommon
 	if callee.Origin() != nil {
 		o = callee.Origin()
 	}
-	env.at = o.Pos()
+	env.at = bodyPos(o)
 	sig := callee.Signature
 	names := paramNames(callee, sig)
 	pts := paramTypes(sig)
@@ -243,7 +243,7 @@ func (x *Exec) applyContract(st *State, fc *FuncContract, key string, callee *ss
 	if callee.Origin() != nil {
 		o = callee.Origin()
 	}
-	env.at = o.Pos()
+	env.at = bodyPos(o)
 	for i, n := range names {
 		if i < len(args) {
 			a := args[i]
@@ -605,7 +605,7 @@ func (x *Exec) dispatch(st *State, c *ssa.CallCommon, i ssa.Value, recv Val, arg
 		if p := fnPkg(m); p != nil {
 			env.pkg = p.Path()
 		}
-		env.at = m.Pos()
+		env.at = bodyPos(m)
 		names := paramNames(m, m.Signature)
 		rv := Val{S: x.so.unbox(t, fmt.Sprintf("(i.val %s)", recv.S)), T: t}
 		all := append([]Val{rv}, args...)
@@ -647,8 +647,8 @@ func (x *Exec) builtin(st *State, i *ssa.Call, b *ssa.Builtin, args []Val) {
 				r = fmt.Sprintf("(s.cap %s)", v.S)
 			}
 		case *types.Basic:
-			r = fmt.Sprintf("(str.len %s)", v.S)
-			x.assume(st, fmt.Sprintf("(>= (str.len %s) 0)", v.S))
+			r = fmt.Sprintf("(strlen %s)", v.S)
+			x.assume(st, fmt.Sprintf("(>= (strlen %s) 0)", v.S))
 		case *types.Map:
 			_, _, ml := x.mapHeaps(st, u)
 			r = fmt.Sprintf("(ite (= %s 0) 0 (select %s %s))", v.S, ml, v.S)
@@ -736,8 +736,13 @@ func (x *Exec) appendB(st *State, i *ssa.Call, args []Val) {
 	fr := x.freshRef(st)
 	ncap := x.declare(st, "cap", "Int")
 	x.assume(st, fmt.Sprintf("(>= %s %s)", ncap, newLen))
-	arr := x.def(st, "Int", fmt.Sprintf("(ite %s (s.arr %s) %s)", inPlace, s.S, fr))
-	off := x.def(st, "Int", fmt.Sprintf("(ite %s (s.off %s) 0)", inPlace, s.S))
+	// declared (not defined) so that they can appear in quantifier patterns
+	arr := x.declare(st, "arr", "Int")
+	x.assume(st, fmt.Sprintf("(= %s (ite %s (s.arr %s) %s))", arr, inPlace, s.S, fr))
+	off := x.declare(st, "off", "Int")
+	x.assume(st, fmt.Sprintf("(= %s (ite %s (s.off %s) 0))", off, inPlace, s.S))
+	slen := x.declare(st, "slen", "Int")
+	x.assume(st, fmt.Sprintf("(= %s (s.len %s))", slen, s.S))
 	cp := x.def(st, "Int", fmt.Sprintf("(ite %s (s.cap %s) %s)", inPlace, s.S, ncap))
 	// new row contents
 	row := x.declare(st, "row", fmt.Sprintf("(Array Int %s)", es))
@@ -746,10 +751,56 @@ func (x *Exec) appendB(st *State, i *ssa.Call, args []Val) {
 	jn := x.fresh("j")
 	// prefix: elements of s
 	x.assume(st, fmt.Sprintf("(forall ((%s Int)) (! (=> (and (<= 0 %s) (< %s (s.len %s))) (= (select %s (+ %s %s)) (select %s (+ (s.off %s) %s)))) :pattern ((select %s (+ %s %s)))))", jn, jn, jn, s.S, row, off, jn, oldRow, s.S, jn, row, off, jn))
-	// suffix: elements of t
-	x.assume(st, fmt.Sprintf("(forall ((%s Int)) (! (=> (and (<= 0 %s) (< %s (s.len %s))) (= (select %s (+ %s (s.len %s) %s)) (select %s (+ (s.off %s) %s)))) :pattern ((select %s (+ %s (s.len %s) %s)))))", jn, jn, jn, t.S, row, off, s.S, jn, tRow, t.S, jn, row, off, s.S, jn))
+	// suffix: elements of t (ground facts when the appended slice is a fixed-size literal array)
+	if n := staticSliceLen(i.Common().Args[1]); n >= 0 && n <= 8 {
+		for j := 0; j < n; j++ {
+			x.assume(st, fmt.Sprintf("(= (select %s (+ %s %s %d)) (select %s (+ (s.off %s) %d)))", row, off, slen, j, tRow, t.S, j))
+			if j == 0 {
+				x.assume(st, fmt.Sprintf("(= (select %s (+ %s %s)) (select %s (s.off %s)))", row, off, slen, tRow, t.S))
+			}
+		}
+	} else {
+		x.assumeSuffix(st, jn, t, row, off, slen, tRow)
+	}
+	if false {
+	x.assume(st, fmt.Sprintf("(forall ((%s Int)) (! (=> (and (<= 0 %s) (< %s (s.len %s))) (= (select %s (+ %s %s %s)) (select %s (+ (s.off %s) %s)))) :pattern ((select %s (+ %s %s %s)))))", jn, jn, jn, t.S, row, off, slen, jn, tRow, t.S, jn, row, off, slen, jn))
+	}
 	// in place: everything outside the appended window is unchanged
 	x.assume(st, fmt.Sprintf("(=> %s (forall ((%s Int)) (! (=> (not (and (<= (+ %s (s.len %s)) %s) (< %s (+ %s %s)))) (= (select %s %s) (select %s %s))) :pattern ((select %s %s)))))", inPlace, jn, off, s.S, jn, jn, off, newLen, row, jn, oldRow, jn, row, jn))
 	x.setHeap(st, name, sort, fmt.Sprintf("(store %s %s %s)", E, arr, row))
+	x.rowFrame(st, sl.Elem(), E, arr)
 	x.bind(st, i, Val{S: fmt.Sprintf("(mk_slice %s %s %s %s)", arr, off, newLen, cp), T: i.Type()})
+	// the same facts phrased with the element-read function (consequences of the above; they give quantified
+	// specifications about slices a trigger to fire on)
+	E2 := x.heapSym(st, name, sort)
+	res := st.top().vals[i].S
+	sel := x.selFn(sl.Elem())
+	x.assume(st, fmt.Sprintf("(forall ((%s Int)) (! (=> (and (<= 0 %s) (< %s (s.len %s))) (= (%s %s %s %s) (%s %s %s %s))) :pattern ((%s %s %s %s)) :pattern ((%s %s %s %s))))", jn, jn, jn, s.S, sel, E2, res, jn, sel, E, s.S, jn, sel, E2, res, jn, sel, E, s.S, jn))
+	if n := staticSliceLen(i.Common().Args[1]); n >= 0 && n <= 8 {
+		for j := 0; j < n; j++ {
+			x.assume(st, fmt.Sprintf("(= (%s %s %s (+ %s %d)) (%s %s %s %d))", sel, E2, res, slen, j, sel, E, t.S, j))
+		}
+		x.assume(st, fmt.Sprintf("(= (%s %s %s %s) (%s %s %s 0))", sel, E2, res, slen, sel, E, t.S))
+	}
+}
+
+
+func (x *Exec) assumeSuffix(st *State, jn string, t Val, row, off, slen, tRow string) {
+	x.assume(st, fmt.Sprintf("(forall ((%s Int)) (! (=> (and (<= 0 %s) (< %s (s.len %s))) (= (select %s (+ %s %s %s)) (select %s (+ (s.off %s) %s)))) :pattern ((select %s (+ %s %s %s)))))", jn, jn, jn, t.S, row, off, slen, jn, tRow, t.S, jn, row, off, slen, jn))
+}
+
+// staticSliceLen: length of a slice value that is t[:] of a freshly allocated fixed-size array, else -1.
+func staticSliceLen(v ssa.Value) int {
+	sl, ok := v.(*ssa.Slice)
+	if !ok || sl.Low != nil || sl.High != nil {
+		return -1
+	}
+	al, ok := sl.X.(*ssa.Alloc)
+	if !ok {
+		return -1
+	}
+	if arr, ok := isArray(al.Type().(*types.Pointer).Elem()); ok {
+		return int(arr.Len())
+	}
+	return -1
 }
